@@ -352,7 +352,7 @@ def judge(chk, rec, own):
         res, verdicts = core.validate_batch("Trace_Cube.tla", "Trace_Cube.cfg", batch, timeout=3000)
         chk.add_tlc("L3 trace validation (Trace_Cube)", res)
         expected = {}
-        for m in __import__("re").finditer(r'<<"E", (\d+), (\d+), (-?\d+), (\d+)>>', res.out):
+        for m in __import__("re").finditer(r'<<\s*"E",\s*(\d+),\s*(\d+),\s*(-?\d+),\s*(\d+)\s*>>', res.out):
             expected[(int(m.group(1)), int(m.group(2)))] = Fraction(int(m.group(3)), int(m.group(4)))
         for ev in batch:
             vs = verdicts[ev["tid"]]
